@@ -123,7 +123,8 @@ type Engine struct {
 
 	noSamples                 bool
 	noIntercept               *ssa.Function
-	partial                   string // non-empty: this path under-approximates (see ropeSlice)
+	partial                   string            // non-empty: this path under-approximates (see ropeSlice)
+	bound                     map[string]uint64 // variables fixed by a representative assignment (ropeSlice)
 	env                       map[string]Value
 	faultSeq                  map[string]int
 	jobVars                   []*Term
@@ -393,6 +394,7 @@ func (e *Engine) resetPath() {
 	e.natives = map[string]Value{}
 	e.env = map[string]Value{}
 	e.partial = ""
+	e.bound = map[string]uint64{}
 	e.faultSeq = map[string]int{}
 	e.wgDefer, e.wgSwap, e.wgActors, e.wgTasks = false, false, false, nil
 	e.fileWrites = nil
